@@ -18,6 +18,11 @@ RULE = (
     "ASN/GLN/HIS may move and only by a 180 deg flip; with --clean/--assign-only/--nodebump --noopt "
     "nothing moves (1e-9).  Non-trivial = run in which >= 1 debump torsion change was applied "
     "(observed through a harness wrapper on Debump.set_dihedral_angle) or >= 1 input heavy atom moved."
+    ' tiptable: EXHAUSTIVE directed clashes (residue type x tip x gap x atom order x conformer; '
+    'dropped tip under every debump/opt mode; titration route; all-hydrogen inputs; far from the '
+    "origin).  altnames: C03's alternative-name table (frozen modes, neutral termini).  na: strands "
+    '- nucleotide atoms never move.  e2e also on the titration route (heavy atoms only in frozen '
+    'modes there).'
 )
 ASSUMPTIONS = [
     "input coordinates are what the PDB file carries (3 decimals)",
